@@ -4,6 +4,7 @@
    case rules. *)
 From Coq Require Import FMapPositive.
 From GE Require Import Lib.Bytes Gen.Blech32Consts Model.Blech32.
+Import B32.
 From Coq Require Import ZifyBool ZifyN ZifyNat.
 Open Scope N_scope.
 
@@ -552,9 +553,9 @@ Definition pre (hrp : bytes) (n : nat) : bool :=
 
 Definition decode_spec (hrp syms : bytes) : dres :=
   if negb (pre hrp (length syms)) then DErr else
-  if (length syms =? 12)%nat then DPanic else
+  if (length syms =? 12)%nat then DErr else
   match syms with
-  | [] => DPanic
+  | [] => DErr
   | v :: _ =>
       match encoding_of_version v with
       | None => DErr
@@ -983,4 +984,86 @@ Proof.
     exfalso. apply (upper_letter_moves b Ub). apply (map_fix_in to_lower s); [symmetry; exact E | exact Hb].
   - destruct (bytes_eqb s (map to_upper s)) eqn:E; [|reflexivity]. apply bytes_eqb_eq in E.
     exfalso. apply (lower_letter_moves a La). apply (map_fix_in to_upper s); [symmetry; exact E | exact Ha].
+Qed.
+
+(* ------------------------------------------------------------------ *)
+(* the hypotheses are satisfiable: a testnet address produced by the   *)
+(* implementation (v0, 20-byte program, 33-byte blinding key)          *)
+(* ------------------------------------------------------------------ *)
+Definition ex_hrp : bytes := map b8 [116; 108; 113].   (* "tlq" *)
+Definition ex_syms : bytes := map b8 [0; 23; 21; 22; 29; 15; 13; 5; 4; 11; 5; 0; 20; 12; 26; 31; 31; 6; 6; 30; 14; 15; 31; 8; 3; 31; 25; 22; 28; 14; 10; 26; 13; 13; 22; 2; 19; 30; 27; 25; 14; 24; 3; 1; 8; 31; 29; 18; 14; 21; 10; 19; 22; 5; 13; 19; 0; 14; 5; 3; 17; 2; 15; 4; 21; 29; 23; 12; 17; 23; 20; 12; 20; 22; 9; 29; 5; 21; 4; 20; 26; 16; 22; 1; 10; 18; 10; 22; 11; 8; 22; 30; 4; 0; 4; 21; 5; 13].
+Definition ex_addr : option bytes := encode ex_hrp (firstn 86 ex_syms) BLECH32.
+
+Example ex_valid : exists cs, to_chars ex_syms = Some cs /\ map to_lower ex_hrp = ex_hrp /\
+  ex_addr = Some (ex_hrp ++ sep :: cs) /\
+  decode (ex_hrp ++ sep :: cs) = DOk ex_hrp (firstn 86 ex_syms) /\
+  nth_error ex_syms 5 = Some (b8 15) /\
+  (exists cs', to_chars (upd ex_syms 5 (b8 22)) = Some cs' /\ decode (ex_hrp ++ sep :: cs') = DErr).
+Proof.
+  eexists. split; [vm_compute; reflexivity|]. split; [reflexivity|]. split; [vm_compute; reflexivity|].
+  split; [vm_compute; reflexivity|]. split; [reflexivity|].
+  eexists. split; vm_compute; reflexivity.
+Qed.
+
+(* ------------------------------------------------------------------ *)
+(* every accepted string has the shape the substitution theorems use   *)
+(* ------------------------------------------------------------------ *)
+Lemma index_of_nth c : forall l k i, index_of c l k = Some i -> k <= i /\ nth_opt l (i - k) = Some c.
+Proof.
+  induction l as [|x l IH]; intros k i H; cbn [index_of] in H; [discriminate|].
+  destruct (beqb x c) eqn:E.
+  - inversion H; subst i. apply beqb_eq in E. subst x. split; [lia|]. rewrite N.sub_diag. reflexivity.
+  - apply IH in H as [H1 H2]. split; [lia|]. cbn [nth_opt].
+    destruct (N.eqb_spec (i - k) 0) as [Z|Z]; [lia|]. replace (i - k - 1) with (i - (k + 1)) by lia. exact H2.
+Qed.
+
+Lemma to_bytes_to_chars : forall cs dec, to_bytes cs = Some dec -> to_chars dec = Some cs.
+Proof.
+  induction cs as [|c cs IH]; intros dec H; cbn [to_bytes] in H.
+  - inversion H. reflexivity.
+  - destruct (index_of c charset 0) as [i|] eqn:E; [|discriminate].
+    destruct (to_bytes cs) as [d|] eqn:E'; [|discriminate]. inversion H; subst dec.
+    apply index_of_nth in E as [_ E]. rewrite N.sub_0_r in E.
+    pose proof (nth_opt_lt _ _ _ E) as L. rewrite charset_length in L. change (N.of_nat 32) with 32 in L.
+    cbn [to_chars]. rewrite n8_b8, N.mod_small by lia. rewrite E, (IH d eq_refl). reflexivity.
+Qed.
+
+Lemma last_index_from_some c : forall s i acc k, last_index_from c s i acc = Some k ->
+  acc = Some k \/ ((i <= k)%nat /\ nth_error s (k - i) = Some c).
+Proof.
+  induction s as [|x s IH]; intros i acc k H; cbn [last_index_from] in H; [left; exact H|].
+  apply IH in H as [H|[H1 H2]].
+  - destruct (beqb x c) eqn:E; [|left; exact H].
+    inversion H; subst k. right. split; [lia|]. rewrite Nat.sub_diag. apply beqb_eq in E. subst. reflexivity.
+  - right. split; [lia|]. replace (k - i)%nat with (S (k - S i)) by lia. exact H2.
+Qed.
+
+Lemma split_at {A} (l : list A) : forall k c, nth_error l k = Some c -> l = firstn k l ++ c :: skipn (k + 1) l.
+Proof.
+  induction l as [|a l IH]; intros [|k] c H; cbn in H; try discriminate.
+  - inversion H. reflexivity.
+  - cbn [firstn skipn Nat.add app]. f_equal. apply IH. exact H.
+Qed.
+
+Theorem accepted_shape s hrp data : decode s = DOk hrp data ->
+  exists syms cs, to_chars syms = Some cs /\ map to_lower s = hrp ++ sep :: cs /\
+                  map to_lower hrp = hrp /\ data = firstn (length syms - 12) syms.
+Proof.
+  unfold decode. destruct (decode_generic s) as [h d c| |] eqn:G; try discriminate.
+  destruct d as [|v r]; [discriminate|]. destruct (encoding_of_version v); [|discriminate].
+  destruct (verify_checksum h ((v :: r) ++ c) n); [|discriminate].
+  intro H; inversion H; subst h data. clear H.
+  rewrite decode_generic_unfold in G.
+  destruct (len_bad s); [discriminate|]. destruct (negb (forallb char_ok s)); [discriminate|].
+  destruct (case_bad s); [discriminate|]. unfold dg_rest in G.
+  set (lower := map to_lower s) in *.
+  destruct (last_index sep lower) as [one|] eqn:LI; [|discriminate].
+  destruct ((one <? 1)%nat || (length lower <? one + 13)%nat); [discriminate|].
+  destruct (to_bytes (skipn (one + 1) lower)) as [dec|] eqn:TB; [|discriminate].
+  destruct (length dec <? 12)%nat; [discriminate|]. inversion G as [[G1 G2 G3]].
+  exists dec, (skipn (one + 1) lower). split; [apply to_bytes_to_chars; exact TB|]. split; [|split].
+  - unfold last_index in LI. apply last_index_from_some in LI as [LI|[_ LI]]; [discriminate|].
+    rewrite Nat.sub_0_r in LI. apply split_at. exact LI.
+  - unfold lower. rewrite firstn_map, map_map. apply map_ext. apply to_lower_idem.
+  - reflexivity.
 Qed.
